@@ -77,7 +77,7 @@ META = dict(
          'encoder replicates by is the value EVERY subset holds; the repaired check refuses every other column with the library '
          'error) and part (f) of the check (harness/structcols.py: bit-level compressed messages whose delayed replication factor or '
          'bitmap bit is missing / different in one subset, at top level and inside replications; what decodes must decode the same '
-         'from its uncompressed and re-compressed forms); the bitmap case is the open finding F24-bitmap. '
+         'from its uncompressed and re-compressed forms); the bitmap case (finding F24-bitmap / F24b, fixed: define_bitmap of compressed data compares the 031031 values of every subset with those of subset 0) has C05_compressed_bitmap_same_in_all_subsets, C05_compressed_encoder_bitmap_same_in_all_subsets, C05_compressed_bitmap_repair_refuses_more and, for the links, C07_links_eq_spec_compressed_own. '
          'Whole-template transparency is proved for the CHECKED compressed encoder (C05_walk_transparent: side conditions field '
          'width <= 64, replication factors / bitmap entries equal in all subsets and read back as supplied, no missing value in '
          'a one-bit field of a varying column); outside those conditions it is carried by the oracle and the correspondence. '
